@@ -4,13 +4,16 @@
    Proved here: the layout (all x then all y slopes per sensor), that only the lower block triangle is
    written, additivity over layers, the r0^(-5/3) and wavelength-product scalings, when the OR-mirroring is
    sound, the polarisation identity behind "covariance of two finite-difference slopes", and that the
-   xx / yy formulas are that identity for equal sub-aperture diameters.  NOT proved: entry-wise equality
-   with the slope covariance for arbitrary sensors -- it is false (known findings C01-...); inside the guard
-   (identical point-symmetric sensors) it is checked numerically by the falsifier against
-   harness/slopecov_common.spec_matrix. *)
+   xx / yy / xy formulas, scaled by r0_scale, ARE the covariances of the physical finite-difference slopes for a
+   field with the library's structure function; entry by entry for the matrix of one sensor and one layer;
+   and, as theorems, the content of the known findings: the [x, y] block holds the covariance of the MIRRORED
+   sub-apertures (right exactly for point-symmetric positions), the [y_i, x_j] block needs the diameters
+   exchanged, the xx/yy formulas are exact only for equal diameters.  NOT proved: entry-wise equality for several
+   different sensors -- it is false in general (known findings C01-...); inside the guard (identical
+   point-symmetric sensors) it is also checked numerically against harness/slopecov_common.spec_matrix. *)
 From Coq Require Import Reals List Arith.
 Require Import AOV.base.Num AOV.base.NumR AOV.base.Cplx AOV.model.Mat AOV.model.SlopeCov AOV.gen.Gen_slopecov
-               AOV.proofs.Mat_proofs AOV.proofs.C01_proofs.
+               AOV.proofs.Mat_proofs AOV.proofs.C01_proofs AOV.proofs.C01_spec.
 Import ListNotations.
 Local Open Scope R_scope.
 
@@ -76,6 +79,116 @@ Theorem C01_xx_yy_are_the_polarisation_for_equal_diameters : forall G K ux uy d 
     - 2 * structure_function_vk (ROps G K) (vnorm ux uy) r0 L0.
 Proof. intros; split; [apply cov_xx_equal_diam|apply cov_yy_equal_diam]. Qed.
 Print Assumptions C01_xx_yy_are_the_polarisation_for_equal_diameters.
+
+(* ---- what each block of the matrix IS, for a phase field with the library's von Karman structure function ----
+   The phase is an arbitrary map phi into a real pre-inner-product space (second-moment reading of "random field")
+   whose structure function is structure_function_vk of the distance (that such a field exists is Bochner /
+   Schoenberg: not provable here, stated as the hypothesis Dphi).  A sub-aperture of diameter d at p measures
+   psx = wvl/(2 pi d) * (phi(p + d/2 ex) - phi(p - d/2 ex)) and psy likewise along y. *)
+Section C01_blocks_are_slope_covariances.
+Variables (G : R -> R) (K : R -> R -> R) (V : Type) (ip : V -> V -> R) (hsub : V -> V -> V).
+Hypothesis ip_sym : forall a b, ip a b = ip b a.
+Hypothesis ip_sub_l : forall a b c, ip (hsub a b) c = ip a c - ip b c.
+Variables (phi : R * R -> V) (r0 L0 : R).
+Hypothesis Dphi : forall a b : R * R, ip (hsub (phi a) (phi b)) (hsub (phi a) (phi b))
+  = structure_function_vk (ROps G K) (vnorm (fst a - fst b) (snd a - snd b)) r0 L0.
+Variable hscal : R -> V -> V.
+Hypothesis ip_scal_l : forall a x y, ip (hscal a x) y = a * ip x y.
+Local Notation Sx := (psx V hsub phi hscal).
+Local Notation Sy := (psy V hsub phi hscal).
+
+(* the scaled block formulas are exactly the covariances of the physical slopes: xx / yy for equal projected
+   diameters, the cross formula for ANY two diameters -- with subap1_diam belonging to the x slope of the first
+   sensor and subap2_diam to the y slope of the second *)
+Theorem C01_scaled_blocks_are_slope_covariances : forall (wi wj : @wfs R) (l : @layer R) (p1 p2 : R * R) d,
+  layer_diam (ROps G K) wi l = d -> layer_diam (ROps G K) wj l = d ->
+  let u := (fst p2 - fst p1, snd p2 - snd p1) in
+  r0_scale (ROps G K) wi wj l * compute_covariance_xx (ROps G K) u d d r0 L0 = ip (Sx (w_wvl wi) p1 d) (Sx (w_wvl wj) p2 d) /\
+  r0_scale (ROps G K) wi wj l * compute_covariance_yy (ROps G K) u d d r0 L0 = ip (Sy (w_wvl wi) p1 d) (Sy (w_wvl wj) p2 d) /\
+  r0_scale (ROps G K) wi wj l * compute_covariance_xy (ROps G K) u d d r0 L0 = ip (Sx (w_wvl wi) p1 d) (Sy (w_wvl wj) p2 d).
+Proof.
+  intros wi wj l p1 p2 d Hi Hj u. split; [|split].
+  - apply (scaled_block_xx G K V ip hsub ip_sym ip_sub_l phi r0 L0 Dphi hscal ip_scal_l); assumption.
+  - apply (scaled_block_yy G K V ip hsub ip_sym ip_sub_l phi r0 L0 Dphi hscal ip_scal_l); assumption.
+  - pose proof (scaled_block_xy G K V ip hsub ip_sym ip_sub_l phi r0 L0 Dphi hscal ip_scal_l wi wj l p1 p2) as H.
+    rewrite Hi, Hj in H. exact H.
+Qed.
+
+(* known finding C01-mixed-diameters, as a theorem: the [y_i, x_j] block needs the cross formula with the two
+   diameters EXCHANGED (the code passes them in the same order as for the [x_i, y_j] block), and the xx formula
+   with unequal diameters is the slope covariance plus a difference of two structure-function values *)
+Theorem C01_cross_block_needs_exchanged_diameters : forall (wi wj : @wfs R) (l : @layer R) (p1 p2 : R * R),
+  r0_scale (ROps G K) wi wj l *
+    compute_covariance_xy (ROps G K) (fst p2 - fst p1, snd p2 - snd p1) (layer_diam (ROps G K) wj l) (layer_diam (ROps G K) wi l) r0 L0
+  = ip (Sy (w_wvl wi) p1 (layer_diam (ROps G K) wi l)) (Sx (w_wvl wj) p2 (layer_diam (ROps G K) wj l)).
+Proof. exact (scaled_block_yx G K V ip hsub ip_sym ip_sub_l phi r0 L0 Dphi hscal ip_scal_l). Qed.
+
+Theorem C01_xx_formula_for_unequal_diameters : forall (p1 p2 : R * R) d1 d2,
+  let ux := fst p2 - fst p1 in let uy := snd p2 - snd p1 in
+  compute_covariance_xx (ROps G K) (ux, uy) d1 d2 r0 L0
+  = 2 * ip (sx V hsub phi p1 d1) (sx V hsub phi p2 d2)
+    + (structure_function_vk (ROps G K) (vnorm (ux - (d2 - d1) / 2) uy) r0 L0
+       - structure_function_vk (ROps G K) (vnorm (ux + (d2 - d1) / 2) uy) r0 L0).
+Proof. exact (block_xx_unequal_diam G K V ip hsub ip_sym ip_sub_l phi r0 L0 Dphi). Qed.
+
+(* ---- the assembled matrix of ONE sensor and one layer, entry by entry (a, b < n = number of sub-apertures;
+   pos = projected sub-aperture position; pos_plus/pos_minus = the same displaced by the code's 1e-20 offset) ---- *)
+Theorem C01_own_blocks_are_slope_covariances : forall D (w : @wfs R) (l : @layer R), l_r0 l = r0 -> l_L0 l = L0 ->
+  forall a b, (a < n_subaps w)%nat -> (b < n_subaps w)%nat ->
+  let M := assemble_seq (ROps G K) D [w] [l] in let n := n_subaps w in let d := layer_diam (ROps G K) w l in
+  ent M a b = ip (Sx (w_wvl w) (pos G K D w l a) d) (Sx (w_wvl w) (pos_plus G K D w l b) d) /\
+  ent M (n + a) (n + b) = ip (Sy (w_wvl w) (pos G K D w l a) d) (Sy (w_wvl w) (pos_plus G K D w l b) d) /\
+  ent M (n + a) b = ip (Sy (w_wvl w) (pos G K D w l a) d) (Sx (w_wvl w) (pos_plus G K D w l b) d).
+Proof.
+  intros D w l Hr HL a b Ha Hb M n d. split; [|split].
+  - apply (own_xx_entry_is_slope_covariance G K V ip hsub ip_sym ip_sub_l phi r0 L0 Dphi hscal ip_scal_l); assumption.
+  - apply (own_yy_entry_is_slope_covariance G K V ip hsub ip_sym ip_sub_l phi r0 L0 Dphi hscal ip_scal_l); assumption.
+  - apply (own_yx_entry_is_slope_covariance G K V ip hsub ip_sym ip_sub_l phi r0 L0 Dphi hscal ip_scal_l); assumption.
+Qed.
+
+(* known finding C01-xy-block-flipped, as a theorem: the [x, y] block written as fliplr(flipud(cov_xy)) holds the
+   cross-covariance of sub-apertures n-1-a and n-1-b, not of a and b; it is the right one exactly when the
+   projected positions are point-symmetric about a common centre *)
+Theorem C01_xy_block_is_the_covariance_of_the_mirrored_subapertures : forall D (w : @wfs R) (l : @layer R),
+  l_r0 l = r0 -> l_L0 l = L0 -> forall a b, (a < n_subaps w)%nat -> (b < n_subaps w)%nat ->
+  let M := assemble_seq (ROps G K) D [w] [l] in let n := n_subaps w in let d := layer_diam (ROps G K) w l in
+  ent M a (n + b) = ip (Sx (w_wvl w) (pos G K D w l (n - 1 - a)) d) (Sy (w_wvl w) (pos_plus G K D w l (n - 1 - b)) d).
+Proof.
+  intros D w l Hr HL a b Ha Hb M n d.
+  apply (own_xy_entry_is_flipped_slope_covariance G K V ip hsub ip_sym ip_sub_l phi r0 L0 Dphi hscal ip_scal_l); assumption.
+Qed.
+
+Theorem C01_xy_block_is_right_for_point_symmetric_positions : forall D (w : @wfs R) (l : @layer R),
+  l_r0 l = r0 -> l_L0 l = L0 -> forall cx cy a b,
+  (forall k, (k < n_subaps w)%nat ->
+     pos G K D w l (n_subaps w - 1 - k) = (cx - fst (pos G K D w l k), cy - snd (pos G K D w l k))) ->
+  (a < n_subaps w)%nat -> (b < n_subaps w)%nat ->
+  let M := assemble_seq (ROps G K) D [w] [l] in let n := n_subaps w in let d := layer_diam (ROps G K) w l in
+  ent M a (n + b) = ip (Sx (w_wvl w) (pos G K D w l a) d) (Sy (w_wvl w) (pos_minus G K D w l b) d).
+Proof.
+  intros D w l Hr HL cx cy a b Hs Ha Hb M n d.
+  apply (own_xy_entry_point_symmetric G K V ip hsub ip_sym ip_sub_l phi r0 L0 Dphi hscal ip_scal_l D w l Hr HL cx cy); assumption.
+Qed.
+
+(* Gram structure: any quadratic form of an xx block is 2 |sum_a c_a sx(p_a)|^2 >= 0 (positive semi-definite) *)
+Variables (hadd : V -> V -> V) (hzero : V).
+Hypothesis ip_add_l : forall x y z, ip (hadd x y) z = ip x z + ip y z.
+Hypothesis ip_zero_l : forall z, ip hzero z = 0.
+Hypothesis ip_nonneg : forall x, 0 <= ip x x.
+Theorem C01_xx_block_is_positive_semidefinite : forall (cs : list (R * (R * R))) d,
+  0 <= lsum (map (fun a => lsum (map (fun b => fst a * fst b *
+         compute_covariance_xx (ROps G K) (fst (snd b) - fst (snd a), snd (snd b) - snd (snd a)) d d r0 L0) cs)) cs).
+Proof. exact (xx_block_psd G K V ip hsub ip_sym ip_sub_l phi r0 L0 Dphi hscal ip_scal_l hadd hzero ip_add_l ip_zero_l ip_nonneg). Qed.
+End C01_blocks_are_slope_covariances.
+Print Assumptions C01_own_blocks_are_slope_covariances.
+Print Assumptions C01_xy_block_is_the_covariance_of_the_mirrored_subapertures.
+
+(* the algebraic hypotheses on (V, ip, hsub, hscal, hadd, hzero) are satisfiable *)
+Example C01_slope_space_nonvacuous : exists (V : Type) (ip : V -> V -> R) (hsub : V -> V -> V) (hscal : R -> V -> V) (hadd : V -> V -> V) (hzero : V),
+  (forall a b, ip a b = ip b a) /\ (forall a b c, ip (hsub a b) c = ip a c - ip b c) /\
+  (forall a x y, ip (hscal a x) y = a * ip x y) /\ (forall x y z, ip (hadd x y) z = ip x z + ip y z) /\
+  (forall z, ip hzero z = 0) /\ (forall x, 0 <= ip x x).
+Proof. exact slope_space_hypotheses_satisfiable. Qed.
 
 Example C01_nonvacuous : total2 [Build_wfs [[true; true]; [true; false]] 1 0 0 0 1 : @wfs R] = 6%nat.
 Proof. reflexivity. Qed.
